@@ -109,13 +109,14 @@ def run(ctx):
     tasks = sp.gen_tasks(ctx, rng, 14 if quick else 80, 14 if quick else 40, make_groups, 8, (), ("mom", "b1", "wd", "lr"))
     sp.run_rt(ctx, tasks, owns, "update_rule")
     # group independence (bitwise) on the two-group behaviours
-    two = [(d, b) for d, b, _ in tasks if len(d["groups"]) == 2][: (40 if quick else 400)]
+    two = [(d, b) for d, b, _ in tasks if len(d["groups"]) == 2]
+    two = rng.sample(two, min(len(two), 40 if quick else 400))
     res = sp.pool_map(independence_task, two)
     sp.collect(ctx, [(d, b, None) for d, b in two], res, [None] * len(two), owns, "group_independence")
     ctx.add("group_independence_runs", len(two))
     # dtype pairings
     pair_tasks = []
-    for d, b, _ in tasks[: (30 if quick else 300)]:
+    for d, b, _ in rng.sample(tasks, min(len(tasks), 30 if quick else 300)):
         for dt, pdt in (("float32", "float32"), ("float32", "float64"), ("bfloat16", "float32"), ("float64", "float32")):
             if any(g.get("method") in ("newton", "higher") for g in d["groups"]) and pdt != "float64":
                 continue
